@@ -58,6 +58,34 @@ def accStep (st : Last × List Acc) : Rec → Last × List Acc
 
 def accepted (rs : List Rec) : List Acc := (rs.foldl accStep ([], [])).2
 
+/-- Per thread incarnation (cut at EXIT / EXEC like `accStep`), the timestamps of the accepted samples never
+decrease. True of every perf.data file that keeps perf's round contract (the reader delivers records in time
+order). It is the hypothesis under which a conversion without context-switch records performs no failing `u64`
+subtraction: `handle_main_event_sample` calls `ContextSwitchHandler::handle_on_cpu_sample` for *every* sample
+(converter.rs:283-285), which computes `timestamp - last_observed_on_timestamp` (shared/context_switch.rs:147) —
+a panic in debug builds for a back-dated sample (`C01_backdated_sample_panics`). -/
+def samplesMonotone (rs : List Rec) : Bool :=
+  (rs.foldl (fun (st : Last × Bool) r =>
+    let ok := match r with
+      | .sample pid tid t _ _ _ _ =>
+        if tid = 0 then true else
+        match lastGet st.1 pid tid with
+        | some t0 => decide (t0 ≤ t)
+        | none => true
+      | _ => true
+    ((accStep (st.1, []) r).1, st.2 && ok)) ([], true)).2
+
+/-- does the history contain any context-switch related record? -/
+def hasCsRec (rs : List Rec) : Bool :=
+  rs.any (fun r => match r with | .switchIn .. | .switchOut .. | .sched .. => true | _ => false)
+
+/-- the verdict of every converter judge on a conversion that panicked: outside the statements' quantifier
+(and expected) exactly when a thread's sample times decrease -/
+def panicVerdict (rs : List Rec) : Bool × String :=
+  if !hasCsRec rs && !samplesMonotone rs then
+    (true, "not-applicable: a thread's sample timestamps decrease (the file breaks perf's round contract); the debug build panics at shared/context_switch.rs:147")
+  else (false, "conversion failed: [panic]")
+
 /-! ## C12 / C01 at converter level: what the bare record history says about cpu deltas and off-CPU samples
 
 Declarative reading, per thread incarnation (same cut points as `accStep`: EXIT, EXEC), in terms of *cumulative
@@ -288,10 +316,17 @@ def step (s : S) : Rec → S
       | some pi => endProc s pi time
       | none => s
     else
-      let (s, pi) := ensureProc s pid
-      match curThread s pi tid with
-      | some i => endThread s i time
+      -- an EXIT record announces nothing: the EXIT of a thread whose process has no live incarnation (its main
+      -- thread exited first, as the kernel emits for `exit_group` with a zombie leader) creates no entry.
+      -- (samply's `handle_exit` does create one through `get_by_pid`: candidate finding
+      -- C17-phantom-process-on-thread-exit, `stepLegacy` below.)
+      match curProc s pid with
       | none => s
+      | some _ =>
+        let (s, pi) := ensureProc s pid
+        match curThread s pi tid with
+        | some i => endThread s i time
+        | none => s
   | .comm pid tid name isExec t =>
     let time := conv s (if t = 0 then s.cur else t)
     if isExec then
@@ -320,7 +355,8 @@ def step (s : S) : Rec → S
     -- a mapping record mentions a thread: it exists (same on-demand rule as samples)
     let s := if s.cur = s.ref || path.isEmpty then s else ensureThread s pid tid
     -- an executable mapping mentions a process: it exists (even before the first sample / without a path)
-    if exec then (ensureProc s pid).1 else s
+    -- (not for `//anon`, `[heap]`, `[stack]`, `[vvar]`: such a record names no library)
+    if exec && !specialPath path then (ensureProc s pid).1 else s
   -- a context-switch record or a sched_switch sample mentions a thread: it exists (same on-demand rule as
   -- samples; switch records of the idle thread are ignored)
   | .switchIn pid tid _ => if tid = 0 then s else ensureThread s pid tid
@@ -352,51 +388,56 @@ def rows (s : S) : List Row :=
              name := if t.isMain then pname else t.name.getD ("Thread <" ++ tidS ++ ">"),
              processName := pname, start := t.start, end_ := t.end_, pstart := p.start, pend := p.end_ }
 
-/-- The record grammar under which C17 is stated (checked along the eager run): a FORK precedes every
-other record of the new thread (so it never meets a live incarnation), a main thread exits last, EXEC
-only on main threads, a process fork creates the main thread, and no record mentions a (pid, tid) after
-its EXIT unless a FORK re-creates it first. -/
+/-- The part of the kernel's record grammar under which C17 is stated and judged, checked record by record
+along the eager run (the executable form of `LifeL.forkOk`, which is all the refinement proof needs): a FORK
+never names a child that is currently bound — a new process's pid has no live incarnation, a new thread's tid
+is not a live thread of that process, is not the process's main thread and is not the forking thread itself —
+and EXEC happens on main threads only. Everything else the property text lists is *inside* the statement: ids
+reused after their EXIT with or without a FORK, a main-thread EXIT that precedes the EXIT of a sibling, entries
+first seen through a sample / COMM / MMAP2, records that mention an exited id (they create a fresh on-demand
+incarnation). -/
+def stepOk (s : S) : Rec → Bool
+  | .fork pid tid ppid ptid _ =>
+    if pid ≠ ppid then (curProc s pid).isNone
+    else match curProc s ppid with
+      | some pi => (curThread s pi tid).isNone && tid != pid && tid != ptid
+      | none => tid != pid && tid != ptid
+  | .comm pid tid _ isExec _ => !isExec || pid == tid
+  | _ => true
+
+/-- the EXIT of a non-main thread of a pid that has no live process incarnation (the excluded point of
+`C17_refines`: samply creates a phantom process entry there) -/
+def orphanExit (s : S) : Rec → Bool
+  | .exit pid tid _ => pid != tid && (curProc s pid).isNone
+  | _ => false
+
 structure G where
   s : S
-  /-- (pid, tid) pairs that have exited and not been re-forked -/
-  dead : List (Nat × Nat) := []
   ok : Bool := true
-
-def mentions : Rec → List (Nat × Nat)
-  | .sample pid tid _ _ _ _ _ => if tid = 0 then [] else [(pid, tid)]
-  | .fork _ _ ppid ptid _ => [(ppid, ptid)]
-  | .exit pid tid _ => [(pid, tid)]
-  | .comm pid tid _ _ _ => [(pid, tid)]
-  | .mmap2 pid tid _ _ _ _ _ _ => [(pid, tid)]
-  | .switchIn pid tid _ => if tid = 0 then [] else [(pid, tid)]
-  | .switchOut pid tid _ => if tid = 0 then [] else [(pid, tid)]
-  | .sched pid tid _ _ _ _ => [(pid, tid)]
+  /-- an orphan thread EXIT has been seen -/
+  orphan : Bool := false
 
 def gStep (g : G) (r : Rec) : G :=
-  let s := g.s
-  let deadHit := (mentions r).any (fun m => g.dead.contains m || g.dead.contains (m.1, m.1))
-  let ok1 := match r with
-    | .fork pid tid ppid ptid _ =>
-      if pid ≠ ppid then tid == pid && (curProc s pid).isNone
-      else match curProc s ppid with
-        | some pi => (curThread s pi tid).isNone && tid != pid && tid != ptid
-        | none => tid != pid && tid != ptid
-    | .exit pid tid _ =>
-      if pid = tid then
-        match curProc s pid with
-        | some pi => !(s.ts.any (fun t => t.alive && t.pinc == pi && !t.isMain))
-        | none => true
-      else true
-    | .comm pid tid _ isExec _ => !isExec || pid == tid
-    | _ => true
-  let dead := match r with
-    | .fork pid tid _ _ _ => g.dead.filter (fun d => !(d == (pid, tid)))
-    | .exit pid tid _ => (pid, tid) :: g.dead
-    | _ => g.dead
-  { s := step s r, dead, ok := g.ok && ok1 && !deadHit }
+  { s := step g.s r, ok := g.ok && stepOk g.s r, orphan := g.orphan || orphanExit g.s r }
 
 def grammarOk (ref : Nat) (rs : List Rec) : Bool :=
   (rs.foldl gStep { s := { ref, cur := ref } }).ok
+
+/-- no EXIT of a non-main thread arrives while its pid has no live process incarnation -/
+def orphanFree (ref : Nat) (rs : List Rec) : Bool :=
+  !(rs.foldl gStep { s := { ref, cur := ref } }).orphan
+
+/-- what samply does today (candidate finding C17-phantom-process-on-thread-exit): an orphan thread EXIT first
+creates a process entry for the pid on demand (`<pid>`, start 0, never ended). Only used to *label* a judge
+failure and in the `decide`d counterexample `C17_phantom_counterexample`. -/
+def stepLegacy (s : S) (r : Rec) : S :=
+  if orphanExit s r then
+    match r with
+    | .exit pid _ _ => step (ensureProc s pid).1 r
+    | _ => step s r
+  else step s r
+
+def runLegacy (ref : Nat) (rs : List Rec) : S := rs.foldl stepLegacy { ref, cur := ref }
 
 /-- child pids of FORK records that name an already-live pid (a missed EXIT, or a malformed stream) -/
 def forkOntoLive (ref : Nat) (rs : List Rec) : List Nat :=
@@ -458,8 +499,19 @@ def expectInfo (ann : Announced) (t : Nat) (pm : List MapAdd) (f : SFrame) : Inf
   let la := f.lookupAddr
   if f.kernel then { frame := .raw la } else
   match resolveH ann t pm la with
-  | some m => { frame := .lib m.lib (m.rel + (la - m.start)), js := m.js }
+  -- relative addresses are the 32-bit quantities of the profile format: the offset into the mapping is taken
+  -- modulo 2^32 (a mapping longer than 4 GiB wraps); a sum that does not fit 32 bits has no rendering
+  -- (`expectOverflows`: the debug build panics there)
+  | some m => { frame := .lib m.lib (m.rel + (la - m.start) % 2 ^ 32), js := m.js }
   | none => { frame := .raw la }
+
+/-- the relative address of the frame does not fit 32 bits -/
+def expectOverflows (ann : Announced) (t : Nat) (pm : List MapAdd) (f : SFrame) : Bool :=
+  let la := f.lookupAddr
+  if f.kernel then false else
+  match resolveH ann t pm la with
+  | some m => decide (m.rel + (la - m.start) % 2 ^ 32 ≥ 2 ^ 32)
+  | none => false
 
 def expectFrame (ann : Announced) (t : Nat) (f : SFrame) : Frame := (expectInfo ann t [] f).frame
 
@@ -498,48 +550,94 @@ def expandJsFrom (before : List Info) : List Info → List Frame
 /-- the root-first frame list of recorded frames with every JS-classified frame expanded to label + native -/
 def expandJs (infos : List Info) : List Frame := expandJsFrom [] infos
 
-/-- per-pid announced mappings along the history (inherited at fork, emptied by exit / exec of the main thread) -/
-def annStep (st : List (Nat × Announced)) : Rec → List (Nat × Announced)
+/-- What an executable MMAP2 record announces. A record naming `//anon`, `[heap]`, `[stack]` or `[vvar]` *is* a
+mapping announced at that time (it covers its range from then on: frames there are no longer inside whatever
+library was mapped before); a record naming a file on disk whose LOAD segments do not relate to the mapped file
+range has no defined relative start and announces nothing the statement can speak about (`mapOps`: the same
+table `SvmaBias.relStart` the converter model uses). -/
+def annOf (cfg : Config) (addr len pgoff : Nat) (path : String) (t : Nat) : Announced :=
+  if specialPath path then [(t, { start := addr, end_ := addr + len, rel := pgoff % 2 ^ 32, lib := path })]
+  else mapOps cfg addr len pgoff path t
+
+/-- per-pid announced mappings along the history (inherited at fork, emptied by exit / exec of the main thread).
+`legacy = true` is samply's present behaviour for special paths (candidate finding
+C02-special-path-not-evicting): such a record announces nothing. -/
+def annStepX (legacy : Bool) (cfg : Config) (st : List (Nat × Announced)) : Rec → List (Nat × Announced)
   | .fork pid _ ppid _ _ =>
-    if pid ≠ ppid then
-      match alGet st pid with
-      | none => alPut st pid ((alGet st ppid).getD [])
-      | some _ => alPut st pid ((alGet st ppid).getD [])
-    else st
+    if pid ≠ ppid then alPut st pid ((alGet st ppid).getD []) else st
   | .exit pid tid _ => if pid = tid then alDel st pid else st
   | .comm pid tid _ true _ => if pid = tid then alDel st pid else st
   | .mmap2 pid _ addr len pgoff true path t =>
-    alPut st pid (((alGet st pid).getD []) ++ [(t, { start := addr, end_ := addr + len, rel := pgoff, lib := path })])
+    if legacy && specialPath path then st
+    else alPut st pid (((alGet st pid).getD []) ++ annOf cfg addr len pgoff path t)
   | _ => st
 
-/-- expected root-first frames of every accepted sample, in record order: (pid, tid, t, frames) -/
-def expectedStacks (cfg : Config) (rs : List Rec) : List (Nat × Nat × Nat × List Frame) :=
-  let rec go (st : List (Nat × Announced)) (last : ConvSpec.Last) : List Rec → List (Nat × Nat × Nat × List Frame)
+def annStep (cfg : Config) := annStepX false cfg
+
+/-- mappings of `pid` announced by later records up to the point where the process incarnation ends; with
+`cut = some t` only those that carry a timestamp `≤ t` (in a time-ordered stream: equal timestamps) -/
+def laterAnn (legacy : Bool) (cfg : Config) (pid : Nat) (cut : Option Nat) : List Rec → Announced
+  | [] => []
+  | .mmap2 p _ addr len pgoff true path t' :: rest =>
+    if p == pid && (match cut with | some t => decide (t' ≤ t) | none => true) && !(legacy && specialPath path) then
+      annOf cfg addr len pgoff path t' ++ laterAnn legacy cfg pid cut rest
+    else laterAnn legacy cfg pid cut rest
+  | .exit p td _ :: rest => if p = pid ∧ td = pid then [] else laterAnn legacy cfg pid cut rest
+  | .comm p td _ true _ :: rest => if p = pid ∧ td = pid then [] else laterAnn legacy cfg pid cut rest
+  | _ :: rest => laterAnn legacy cfg pid cut rest
+
+/-- one accepted sample with the frames the statement expects, and — only for *labelling* a failure with the
+reason tag of a candidate finding, never for accepting an output — the frames samply's present mechanism
+yields where it deviates:
+* `legacySp`: special-path records announce nothing (C02-special-path-not-evicting);
+* `legacyQ`: additionally, mappings are applied by *queue prefix* against the *running maximum* of the sample
+  timestamps of the process buffer — `next_op_if_at_or_before` stops at the first queued operation with a later
+  timestamp, and operations already applied for an earlier-delivered, later-stamped sample stay applied
+  (C02-backdated-record; equal to the statement's reading whenever records are delivered in time order). -/
+structure ExpSample where
+  pid : Nat
+  tid : Nat
+  t : Nat
+  frames : List Frame
+  legacySp : List Frame
+  legacyQ : List Frame
+  /-- some relative address of the expected stack does not fit 32 bits -/
+  overflow : Bool
+
+def takeWhileLe (ann : Announced) (t : Nat) : Announced := ann.takeWhile (fun e => decide (e.1 ≤ t))
+
+def expectedSamples (cfg : Config) (rs : List Rec) : List ExpSample :=
+  let rec go (st stL : List (Nat × Announced)) (mx : List (Nat × Nat)) (last : ConvSpec.Last) :
+      List Rec → List ExpSample
     | [] => []
     | r :: rest =>
-      let st' := annStep st r
+      let st' := annStepX false cfg st r
+      let stL' := annStepX true cfg stL r
+      let mx' := match r with
+        | .exit pid tid _ => if pid = tid then alDel mx pid else mx
+        | .comm pid tid _ true _ => if pid = tid then alDel mx pid else mx
+        | _ => mx
       let a := accStep (last, []) r
       match r, a.2 with
       | .sample pid tid t km _ ip chain, [_] =>
-        -- mappings announced at or before the sample's timestamp — including records that come later in the
-        -- stream with the same timestamp are not yet known to `st`; the cut-off is by timestamp, so look ahead
-        let ann := (alGet st pid).getD []
-        let later := laterSameTs pid t rest
-        let stack := sampleStack cfg km ip chain
-        (pid, tid, t, expandJs (stack.reverse.map (expectInfo (ann ++ later) t (pmCands cfg pid)))) :: go st' a.1 rest
-      | _, _ => go st' a.1 rest
-  go [] [] rs
-where
-  /-- mappings of `pid` announced by later records that carry a timestamp `≤ t` (only possible with equal
-  timestamps in a time-ordered stream), up to the point where the process incarnation ends -/
-  laterSameTs (pid t : Nat) : List Rec → Announced
-    | [] => []
-    | .mmap2 p _ addr len pgoff true path t' :: rest =>
-      if p = pid ∧ t' ≤ t then (t', { start := addr, end_ := addr + len, rel := pgoff, lib := path }) :: laterSameTs pid t rest
-      else laterSameTs pid t rest
-    | .exit p td _ :: rest => if p = pid ∧ td = pid then [] else laterSameTs pid t rest
-    | .comm p td _ true _ :: rest => if p = pid ∧ td = pid then [] else laterSameTs pid t rest
-    | _ :: rest => laterSameTs pid t rest
+        -- mappings announced at or before the sample's timestamp: records that come later in the stream with a
+        -- timestamp ≤ t are not yet known to `st`; the cut-off is by timestamp, so look ahead
+        let ann := (alGet st pid).getD [] ++ laterAnn false cfg pid (some t) rest
+        let annSp := (alGet stL pid).getD [] ++ laterAnn true cfg pid (some t) rest
+        let teff := max ((alGet mx pid).getD 0) t
+        let annQ := takeWhileLe ((alGet stL pid).getD [] ++ laterAnn true cfg pid none rest) teff
+        let stack := (sampleStack cfg km ip chain).reverse
+        let pm := pmCands cfg pid
+        { pid, tid, t, frames := expandJs (stack.map (expectInfo ann t pm)),
+          legacySp := expandJs (stack.map (expectInfo annSp t pm)),
+          legacyQ := expandJs (stack.map (expectInfo annQ teff pm)),
+          overflow := stack.any (expectOverflows ann t pm) } :: go st' stL' (alPut mx' pid teff) a.1 rest
+      | _, _ => go st' stL' mx' a.1 rest
+  go [] [] [] [] rs
+
+/-- expected root-first frames of every accepted sample, in record order: (pid, tid, t, frames) -/
+def expectedStacks (cfg : Config) (rs : List Rec) : List (Nat × Nat × Nat × List Frame) :=
+  (expectedSamples cfg rs).map (fun e => (e.pid, e.tid, e.t, e.frames))
 
 /-- the per-CPU copies expected for every accepted sample (`--per-cpu-threads`): (CPU index, raw time, thread
 label if the history respects the record grammar — the eager lifecycle gives the thread's name at that
